@@ -16,7 +16,7 @@ FIRSTS = "b+m-"
 SHAPEWORDS = ["UDJLHFVZ", "LHFUDJZV", "JZUVLDHF"]
 # words with value-equal neighbours: an exact re-delivery of a candle must be merged (volume counted twice), not dropped
 REPEATWORDS = ["UUDDJJLL", "UUUUUUUU", "UDDDJJJU"]
-HOSTS = ["cm", "ind", "hexm", "hexd"]
+HOSTS = ["cm", "ind", "hexm", "hexd", "cm-spelling", "ind-spelling"]  # *-spelling: lower-case string / TimeFrame enum member
 
 
 def spaces(tier):
@@ -42,6 +42,11 @@ def execute(raw, tf, fill, host, preload, comp, extra):
     from hexital.indicators import SMA
 
     first = fresh(raw[:preload])
+    if host.endswith("-spelling"):
+        from hexital.utils.timeframe import TimeFrame
+        enum = next((m for m in TimeFrame if m.value == tf), None)
+        tf = enum if enum is not None else tf.lower()
+        host = host.split("-")[0]
     if host == "cm":
         obj = CandleManager(first, timeframe=tf, timeframe_fill=fill)
         get = lambda: obj.candles
